@@ -299,7 +299,9 @@ def sym_qvalues(ctx, cfg):
     finally:
         core.DIV_HOOK[0] = None
     ctx.notes.append(("assumed_nonzero_denominators", assumed[0]))
-    props = _structure(zs, out, lo_only=True, what="q") + _pi0_props(K)
+    # (the pi0 > 0 lemma is not asked here: it guards the 0/0 of the NNLS rescaling in the PEP routines only; a count
+    #  ratio scaled by pi0 = 0 is all zeros, which the statement allows, so a failure could not be shown on the real code)
+    props = _structure(zs, out, lo_only=True, what="q")
     if alg == "from_counts" and K.pi0s and len(out) == len(zs):
         # Anchor of a count-based FDR estimate: accepting EVERYTHING is estimated at pi0, the assumed share of
         # incorrect targets ((#T/#D) * #D/#T = 1). It is observable at the worst-scoring PSM whenever decoys are
